@@ -22,8 +22,32 @@ from vf.gen import schemes as S
 
 LEVEL = "fault_enumeration"
 
-EXC = {"ValueError": ValueError, "RuntimeError": RuntimeError, "ZeroDivisionError": ZeroDivisionError,
-       "FloatingPointError": FloatingPointError}  # fmt: skip
+class VfModelError(Exception):
+    """an exception class of a third-party megacomplex: derives from Exception directly"""
+
+
+def _exc(name):
+    if name == "ModelError":
+        from glotaran.model import ModelError  # noqa: PLC0415
+
+        return lambda msg: _with_msg(ModelError.__new__(ModelError), msg)
+    if name == "ParameterNotFoundException":
+        from glotaran.parameter.parameters import ParameterNotFoundException  # noqa: PLC0415
+
+        return lambda msg: _with_msg(ParameterNotFoundException.__new__(ParameterNotFoundException), msg)
+    return EXC[name]
+
+
+def _with_msg(e, msg):
+    Exception.__init__(e, msg)
+    return e
+
+
+# quick uses the first two (an everyday builtin and a class deriving from Exception directly), thorough all
+EXC = {"ValueError": ValueError, "VfModelError": VfModelError, "ZeroDivisionError": ZeroDivisionError,
+       "RuntimeError": RuntimeError, "FloatingPointError": FloatingPointError, "KeyError": KeyError,
+       "TypeError": TypeError, "IndexError": IndexError, "ModelError": None, "ParameterNotFoundException": None}  # fmt: skip
+QUICK_EXC = ["ValueError", "VfModelError"]
 
 SCHEMES = {
     "unlinked": {"link": False, "relation": "iv"},
@@ -65,7 +89,7 @@ def run_with_faults(case, faults):
         plan.n += 1
         f = plan.faults.get(plan.n)
         if f and f[0] == "raise":
-            e = EXC[f[1]](f"injected-fault-{plan.n}")
+            e = _exc(f[1])(f"injected-fault-{plan.n}")
             plan.raised.append(e)
             raise e
         if f and f[0] == "nan":
@@ -152,8 +176,14 @@ def judge(case, faults, out, n_optimizer_evaluations):
             return vs
         if case["raise_exception"]:
             return vs  # non-finite faults with raise_exception=True may surface as scipy/numpy errors
-        vs.append(V("exception-escaped-with-raise_exception-false/" + type(exc).__name__, exc=repr(exc)[:200],
-                    fault_kinds=sorted(kinds), fault_in_create_result=bool(n_optimizer_evaluations is not None and min(ks) > n_optimizer_evaluations), **ctx))  # fmt: skip
+        in_cr = bool(n_optimizer_evaluations is not None and min(ks) > n_optimizer_evaluations)
+        if any(exc is r for r in plan.raised):
+            # the injected exception itself came out: the finding is identified by where the evaluation was called from
+            sig = "injected-exception-escaped-with-raise_exception-false/" + ("in-create_result" if in_cr else "in-least_squares")
+        else:
+            sig = "exception-escaped-with-raise_exception-false/" + type(exc).__name__
+        vs.append(V(sig, exc=repr(exc)[:200], exception_type=type(exc).__name__, fault_kinds=sorted(kinds),
+                    fault_in_create_result=in_cr, **ctx))  # fmt: skip
         return vs
     # a Result came back
     if only_raise:
@@ -281,7 +311,7 @@ def case_faults(case):
     if not case["verbose"] and base["printed"].strip():
         vs.append(V("silent-run-printed", printed=base["printed"][:100]))
     deviations = []
-    kinds = [["raise", n] for n in (EXC if case.get("all_exc") else ["ValueError", "ZeroDivisionError"])] + [["nan"]]
+    kinds = [["raise", n] for n in (EXC if case.get("all_exc") else QUICK_EXC)] + [["nan"]]
     for k in range(1, N + 1):
         for kind in kinds:
             deviations.append({str(k): kind})
